@@ -61,10 +61,14 @@ def vf_case(draw, tier, two_axes=False):
     ng = draw(st.integers(1, 3))
     glyphs = []
     nverts_used = set()
+    # full-bleed artwork in one master that is not the default one: the first shape of the first glyph fills the whole glyph
+    # cell there (a quadrilateral elsewhere), so that this master's bounds - and clip box - are the largest on the axis
+    others = [m for m in range(nm) if m != default_idx]
+    bleed = draw(st.sampled_from([None, None] + others))
     for gi in range(ng):
         shapes = []
         for si in range(draw(st.integers(1, 3))):
-            k = draw(st.integers(3, 9).filter(lambda x: x not in nverts_used))
+            k = 4 if (bleed is not None and gi == 0 and si == 0) else draw(st.integers(3, 9).filter(lambda x: x not in nverts_used and not (bleed is not None and x == 4)))
             nverts_used.add(k)
             kind = draw(st.sampled_from(["solid", "solid", "lin", "rad"]))
             color = "#%06x" % draw(st.integers(0, 0xFFFFFF))
@@ -76,6 +80,8 @@ def vf_case(draw, tier, two_axes=False):
                 cx, cy = cx0 + draw(st.floats(-8, 8)), cy0 + draw(st.floats(-8, 8))
                 radii = [draw(st.floats(8, 22)) for _ in range(k)]
                 pts = [[round(cx + radii[i] * math.cos(ph + 2 * math.pi * i / k), 2), round(cy + radii[i] * math.sin(ph + 2 * math.pi * i / k), 2)] for i in range(k)]
+                if bleed == m and gi == 0 and si == 0:
+                    pts = [[0.0, 0.0], [100.0, 0.0], [100.0, 100.0], [0.0, 100.0]]
                 geo = {"x1": round(cx - draw(st.floats(5, 20)), 2), "y1": round(cy - draw(st.floats(-10, 10)), 2), "x2": round(cx + draw(st.floats(5, 20)), 2), "y2": round(cy + draw(st.floats(-10, 10)), 2),
                        "cx": round(cx, 2), "cy": round(cy, 2), "r": round(draw(st.floats(10, 25)), 2)}
                 per_master.append({"pts": pts, "geo": geo})
